@@ -131,6 +131,41 @@ def main(argv):
                                                   ("op", "-", (), "u", (I(5000000), _fee)))))
     consider(compile_case(pt, model, w_orphan, 6, True, True, None), 4)
 
+    # 0c. free-form programs outside the recipe language, judged against meanings computed in Python (c01_free.py)
+    import c01_free
+    nfree = 0
+    for name, minv, build, expect in c01_free.programs(pt):
+        for version in ([v for v in (4, 5, 6, 7, 8, 9, 10) if v >= minv] if thorough else [v for v in (minv, 6, 8, 10) if v >= minv]):
+            for ss in (None, True):
+                r = call_real(lambda: pt.compileTeal(build(), pt.Mode.Application, version=version, optimize=pt.OptimizeOptions(scratch_slots=ss)))
+                ck.count(("free", name, version, ss), nontrivial=(r[0] == "ok"))
+                nfree += 1
+                if r[0] != "ok":
+                    semfails.append({"kind": "free", "case": "%s v%d scratch_slots=%s" % (name, version, ss), "avm": "compileTeal: %s %s" % (r[1], (r[2] if len(r) > 2 else "")[:200]),
+                                     "denote": "TEAL expected (the program is well-typed and within every limit)"})
+                    continue
+                for _ in range(2):
+                    ctx = gen_context(rng, True)
+                    fee, amt, a0 = c01_free.ctx_fields(ctx)
+                    a = run_teal(model, ctx, r[1])
+                    o = observable(a)
+                    if o is None:
+                        continue
+                    want = expect(fee, amt, a0)
+                    if want is None:
+                        okv = o[0] == repr(S("fail"))
+                        wtxt = "fail"
+                    else:
+                        wv = repr(S("approve")) if want[0] else repr(S("reject"))
+                        logs = [e[1] for e in a[3][1:] if isinstance(e, list) and e and e[0] == S("log")] if o[0] == repr(S("approve")) else None
+                        okv = o[0] == wv and (logs is None or [bytes(x) if not isinstance(x, bytes) else x for x in logs] == list(want[1]))
+                        wtxt = "%s logs=%s" % (wv, [x.hex() for x in want[1]])
+                    if not okv:
+                        semfails.append({"kind": "free", "case": "%s v%d scratch_slots=%s" % (name, version, ss), "ctx": sx(ctx), "teal": r[1].split("\n"),
+                                         "avm": repr(a)[:2500], "denote": "computed in Python from the same fields: " + wtxt[:1500]})
+                        break
+    ck.coverage["free_form_program_variants"] = nfree
+
     # 1. exhaustive small shapes x versions x modes
     smalls = small_recipes()
     versions = list(range(2, 11))
